@@ -202,7 +202,41 @@ def computed_bindings(ctx, with_sites=False):
             full = (verb,) + desc
             table.setdefault((b.table, sl.column), set()).add(full)
             sites.setdefault((b.table, sl.column, full), []).append(b)
+        # the conditions under which a row is produced at all (which elements of the document get a row)
+        g = (verb_of(b),) + row_guards(d, b)
+        table.setdefault((b.table, ROW_GUARD), set()).add(g)
+        sites.setdefault((b.table, ROW_GUARD, g), []).append(b)
     return (table, sites) if with_sites else table
+
+
+ROW_GUARD = '<row produced when>'
+
+
+def verb_of(b):
+    verb = 'INSERT' + (f' OR {b.variant.stmt.or_clause}' if b.variant.stmt.or_clause else '')
+    if b.variant.stmt.on_conflict():
+        verb += ' ON CONFLICT'
+    return verb
+
+
+def row_guards(d, b):
+    """descriptors of the tests that dominate the creation of a row: enclosing ifs, preceding early exits in the
+    enclosing loops, comprehension filters - plus the iterables the row ranges over."""
+    from ..loops import _dominating_facts
+    node = b.row.node
+    out = []
+    if node is None:
+        return ()
+    anchor = node
+    if b.row.elts:
+        anchor = getattr(b.row.elts[0], '_parent', node) or node
+    for test, pol in _dominating_facts(anchor, b.func.node):
+        c = d._cond(test, test, 0, b.row)
+        out.append(c if pol else f'not ({c})')
+    its = []
+    for tgt, it in b.row.gens:
+        its.append('over ' + d.describe(it, it, 1, b.row))
+    return tuple(sorted(set(out))) + tuple(its)
 
 
 def r2_bindings(ctx, res):
@@ -233,6 +267,8 @@ def r2_bindings(ctx, res):
             res.find(key, 'wn/_add.py', f'no INSERT feeds {t}.{c} from {list(wdesc)} any more (prescribed by the binding table): '
                                         f'that part of the document is no longer stored')
     for (t, c) in sorted(set(BINDINGS) - set(table)):
+        if c == ROW_GUARD:
+            continue
         key = f'bind-missing:{t}.{c}'
         res.inst(key, 'wn/_add.py', f'{t}.{c}')
         res.find(key, 'wn/_add.py', f'column {t}.{c} is no longer written by any INSERT of the importer')
